@@ -156,13 +156,31 @@ Definition refused_b (i : bytes) : bool :=
 (* snapshots compared modulo the injected "MOVE <root>" for an empty pending code *)
 Definition norm_code (c : config) (code : bytes) : bytes :=
   match code with [] => encode (IMove (cfg_root c)) | _ => code end.
-Definition osnap_same_norm (c : config) (a b : osnap) : bool :=
+(* a stored session without pending code and not terminated is one whose last request failed:
+   the next engine unwinds it before anything else (init), so it stands for the unwound session *)
+Fixpoint pop_n (n : nat) (c : cache) : cache :=
+  match n with
+  | O => c
+  | S k => pop_n k (match cache_pop c with Ok c' => c' | _ => c end)
+  end.
+Definition unwind_osnap (os : osnap) : osnap :=
+  match os_code os, os_path os with
+  | [], _ :: _ =>
+    if oflag os FLAG_TERMINATE then os else
+    let c := pop_n (List.length (os_path os)) (mkCache (os_csize os) (os_use os) (os_frames os) (os_sizes os) (os_last os)) in
+    let flags := flag_bytes (set_nth_bit (N.to_nat FLAG_DIRTY) false (bits_of_bytes (os_flags os))) in
+    mkOsnap [] [] 0 flags (os_lang os) (os_csize os) (c_use c) (map asort (c_frames c)) (asort (c_sizes c)) (os_last os)
+  | _, _ => os
+  end.
+Definition osnap_same_norm0 (c : config) (a b : osnap) : bool :=
   bytes_eqb (norm_code c (os_code a)) (norm_code c (os_code b))
   && list_eqb bytes_eqb (os_path a) (os_path b) && (os_idx a =? os_idx b)
   && bytes_eqb (os_flags a) (os_flags b) && obytes_eqb (os_lang a) (os_lang b)
   && (os_use a =? os_use b)
   && list_eqb (list_eqb (pair_eqb bytes_eqb bytes_eqb)) (os_frames a) (os_frames b)
   && list_eqb (pair_eqb bytes_eqb N.eqb) (os_sizes a) (os_sizes b).
+Definition osnap_same_norm (c : config) (a b : osnap) : bool :=
+  osnap_same_norm0 c (unwind_osnap a) (unwind_osnap b).
 Definition no_app_calls (o : eobs) : bool :=
   forallb (fun c => match c with OcFunc _ _ _ | OcCode _ => false | _ => true end) (eo_calls o).
 (* per step with a refused input (not the first request of a session): an error is reported,
@@ -195,7 +213,9 @@ Fixpoint c06_blocked (prev : option osnap) (steps : list (bytes * eobs)) : bool 
   | (i, o) :: r =>
     (match prev with
      | Some a =>
-       if oflag a FLAG_TERMINATE && negb (refused_b i) then
+       (* (a page left unrendered by the terminating request -- DIRTY still set -- is delivered by
+          the next Flush: the theorem and the monitor speak of sessions whose output was flushed) *)
+       if oflag a FLAG_TERMINATE && negb (oflag a FLAG_DIRTY) && negb (refused_b i) then
          negb (eo_cont o) && bytes_eqb (eo_out o) [] && no_app_calls o
          && match eo_snap o with
             | Some b => list_eqb bytes_eqb (os_path a) (os_path b) && (os_idx a =? os_idx b)
@@ -361,20 +381,31 @@ Fixpoint moves_of (es : list ev) : list bytes :=
   end.
 Definition pos_eqb_m (a b : list bytes * N) : bool := list_eqb bytes_eqb (fst a) (fst b) && (snd a =? snd b).
 (* a failed move (status not OK) is not logged; the fold uses nav_code *)
-Fixpoint c04_steps (c : config) (prev : list bytes * N) (steps : list (bytes * eobs)) (evs : list (list ev)) : bool :=
+Fixpoint c04_steps (c : config) (pers : bool) (prevs : option osnap) (steps : list (bytes * eobs)) (evs : list (list ev)) : bool :=
   match steps, evs with
   | (i, o) :: steps', es :: evs' =>
+    let prev := match prevs with Some ps => (os_path ps, os_idx ps) | None => ([], 0) end in
     (* ResetOnEmptyInput: an empty input first unwinds the session to the empty position *)
     let prev := if c_reset_empty c && (len i =? 0) then ([], 0) else prev in
+    (* a new engine on a stored session without pending code (the previous request failed)
+       unwinds the stale position before it starts over, unless the session is terminated *)
+    let alt := match prevs with
+               | Some ps => if pers && (len (os_code ps) =? 0) && negb (oflag ps FLAG_TERMINATE) then ([], 0) else prev
+               | None => prev end in
     match eo_snap o with
     | Some os =>
       let now := (os_path os, os_idx os) in
       (* a graceful end or a forced reset unwinds to the empty position: not a move of the table *)
       let unwound := match os_path os with [] => true | _ => false end in
+      (* (a request refused before initialisation does not get as far as the unwinding) *)
       (unwound || match nav_fold nav_code prev (moves_of es) with
                   | Some p => pos_eqb_m p now
                   | None => false
-                  end) && c04_steps c now steps' evs'
+                  end
+               || match nav_fold nav_code alt (moves_of es) with
+                  | Some p => pos_eqb_m p now
+                  | None => false
+                  end) && c04_steps c pers (Some os) steps' evs'
     | None => true
     end
   | _, _ => true
@@ -384,7 +415,7 @@ Definition c04_class (ec : ecase) : option N :=
   match c_first (ec_cfg ec) with
   | Some _ => None
   | None =>
-    if c04_steps (ec_cfg ec) ([], 0) (ec_long ec) (events_long ec) && c04_steps (ec_cfg ec) ([], 0) (ec_pers ec) (events_pers ec)
+    if c04_steps (ec_cfg ec) false None (ec_long ec) (events_long ec) && c04_steps (ec_cfg ec) true None (ec_pers ec) (events_pers ec)
     then None else Some 0
   end.
 Definition engine_violations_c04 (cs : list ecase) : list (N * N) := classify c04_class 0 cs.
